@@ -5,6 +5,8 @@ package c14
 import (
 	"fmt"
 
+	"pipelined.dev/signal"
+
 	"pgregory.net/rapid"
 	"verif/harness/kit"
 )
@@ -22,6 +24,10 @@ type Case struct {
 	Ch  int    `json:"ch"`
 	Idx []int  `json:"idx,omitempty"`
 	Fix int    `json:"fix,omitempty"` // fixture construction order, see kit.AnyRootWindow
+	// Grow > 0: after the view was taken, Grow frames are appended to the parent
+	// (in place when its capacity allows, otherwise the parent moves to new
+	// storage); the view must keep addressing the parent.
+	Grow int `json:"grow,omitempty"`
 }
 
 var names = kit.BuiltinNames()
@@ -46,6 +52,41 @@ func Check(c *Case) (res kit.Result) {
 	if p, v := kit.Try(func() { view = parent.Channel(c.Ch) }); p {
 		res.Failf("Channel(%d) panicked: %v", c.Ch, v)
 		return
+	}
+	if c.Grow < 0 || c.Grow > 4096 {
+		return kit.Result{}
+	}
+	moved := false
+	if c.Grow > 0 {
+		// touch the view first, then change the parent behind it
+		if frames > 0 {
+			_ = view.Sample(0)
+		}
+		src := kit.AllocAny(c.T, signal.Allocator{Channels: C, Length: c.Grow, Capacity: c.Grow})
+		for i := 0; i < src.Len(); i++ {
+			src.Set(i, kit.IV(int64(61+i%50)))
+		}
+		moved = frames+c.Grow > c.Kr-c.A
+		if p, v := kit.Try(func() { parent.Append(src) }); p {
+			res.Failf("Append of %d frames to the parent panicked: %v", c.Grow, v)
+			return
+		}
+		if !moved {
+			for i := 0; i < src.Len(); i++ {
+				model[C*c.B+i] = src.Get(i)
+			}
+		}
+		frames += c.Grow
+		ph = parent.Hdr()
+		if moved {
+			res.Class("parentMovedAfterViewWasTaken")
+		} else {
+			res.Class("parentGrewInPlaceAfterViewWasTaken")
+		}
+	}
+	if moved {
+		// the parent lives in storage of its own now: it is its own reference
+		return checkMoved(c, &res, parent, view, frames)
 	}
 	if view.Channels() != 1 || view.Length() != frames || view.Capacity() != c.Kr-c.A {
 		res.Failf("view of channel %d reports channels=%d length=%d capacity=%d, want 1, %d, %d", c.Ch, view.Channels(), view.Length(), view.Capacity(), frames, c.Kr-c.A)
@@ -110,7 +151,7 @@ func Check(c *Case) (res kit.Result) {
 func FP(c *Case) uint64 {
 	h := kit.NewHasher()
 	h.Str(c.T)
-	h.Ints([]int{c.C, c.Kr, c.A, c.B, c.Ch, c.Fix})
+	h.Ints([]int{c.C, c.Kr, c.A, c.B, c.Ch, c.Fix, c.Grow})
 	h.Ints(c.Idx)
 	return h.Sum()
 }
@@ -120,6 +161,9 @@ func Gen(t *rapid.T) *Case {
 	c.Kr, c.A, c.B = kit.GenWindow(t, "p", 2000)
 	c.Ch = rapid.IntRange(0, c.C-1).Draw(t, "ch")
 	c.Fix = rapid.IntRange(0, 2).Draw(t, "fix")
+	if rapid.IntRange(0, 2).Draw(t, "growSel") == 0 {
+		c.Grow = rapid.IntRange(1, 2*(c.Kr-c.B)+3).Draw(t, "grow")
+	}
 	if fr := c.B - c.A; fr > 24 {
 		n := rapid.IntRange(1, 24).Draw(t, "nidx")
 		for k := 0; k < n; k++ {
@@ -130,3 +174,56 @@ func Gen(t *rapid.T) *Case {
 }
 
 var Oracle = kit.Oracle[Case]{Property: Property, Gen: Gen, Check: Check, FP: FP}
+
+// checkMoved: the parent was moved to new storage by a growing Append after the
+// view was taken. The reference is the parent itself: the view must read the
+// parent's samples and a write through the view must change exactly one of them.
+func checkMoved(c *Case, res *kit.Result, parent kit.AnyBuf, view kit.AnyChan, frames int) kit.Result {
+	C := c.C
+	if view.Channels() != 1 || view.Length() != frames || view.Capacity() != parent.Hdr().Capacity {
+		res.Failf("after the parent grew: view reports channels=%d length=%d capacity=%d, parent has length %d capacity %d", view.Channels(), view.Length(), view.Capacity(), frames, parent.Hdr().Capacity)
+		return *res
+	}
+	idx := c.Idx
+	if len(idx) == 0 {
+		for i := 0; i < frames; i++ {
+			idx = append(idx, i)
+		}
+	}
+	model := parent.Snap()
+	for _, i := range idx {
+		if i < 0 || i >= frames {
+			continue
+		}
+		pos := C*i + c.Ch
+		what := fmt.Sprintf("%d-channel parent moved to new storage after the view of channel %d was taken, index %d", C, c.Ch, i)
+		if got := view.Sample(i); !kit.SameVal(got, model[pos]) {
+			res.Failf("%s: Sample returned %s, the parent's sample is %s", what, got, model[pos])
+			return *res
+		}
+		if bi := view.BufferIndex(c.Ch, i); bi != pos {
+			res.Failf("%s: BufferIndex = %d, want %d", what, bi, pos)
+			return *res
+		}
+		nv := kit.IV(int64(100 + (i+c.Ch)%27))
+		view.SetSample(i, nv)
+		model[pos] = parent.Get(pos)
+		if model[pos].String() != nv.String() {
+			res.Failf("%s: wrote %s through the view, the parent holds %s", what, nv, model[pos])
+			return *res
+		}
+		if d := kit.DiffVals("parent after SetSample through the view", parent.Snap(), model); d != "" {
+			res.Failf("%s: %s", what, d)
+			return *res
+		}
+		// and the other direction: a write to the parent is seen through the view
+		pv := kit.IV(int64(31 + (i*3+c.Ch)%60))
+		parent.Set(pos, pv)
+		model[pos] = parent.Get(pos)
+		if back := view.Sample(i); !kit.SameVal(back, model[pos]) {
+			res.Failf("%s: wrote %s to the parent, the view reads %s", what, pv, back)
+			return *res
+		}
+	}
+	return *res
+}
